@@ -150,6 +150,9 @@ func (privk *PrivateKey) Validate() error {
 	if !safeprime.ProbablySafePrime(privk.Q, 40) {
 		return errors.New("Q is not a safe prime")
 	}
+	if privk.P.Cmp(privk.Q) == 0 {
+		return errors.New("P and Q are equal")
+	}
 	return nil
 }
 
